@@ -638,6 +638,9 @@ func runFrame(fr *frame) {
 		if debug {
 			fmt.Fprintf(os.Stderr, "target panic in %s: %v\n", fr.fn, p)
 		}
+		if E.panicStack == nil {
+			E.panicStack = stackStrings() // where the panic was raised (before unwinding)
+		}
 		callFns = callFns[:fr.depth]
 		fr.panicking = true
 		fr.panic = p
@@ -712,6 +715,7 @@ func doRecover(caller *frame) value {
 		caller != nil && !caller.panicking &&
 		caller.caller != nil && caller.caller.panicking {
 		caller.caller.panicking = false
+		E.panicStack = nil
 		p := caller.caller.panic
 		caller.caller.panic = nil
 
